@@ -418,7 +418,6 @@ def install(world):
     M['open'] = m_open
     M['struct.unpack'] = m_unpack
     M['time.gmtime'] = m_gmtime
-    M['time.strftime'] = m_strftime
     B.SPEC_FUNCS.update({'fs': sp_fs, 'file_at': sp_file, 'isfile': sp_isfile, 'isdir': sp_isdir,
                          'mtime_of': sp_mtime, 'pjoin': sp_join, 'encoded': sp_encoded, 'pyc_time': sp_pyc_time})
     from .. import loops
